@@ -629,7 +629,7 @@ def container_method(pack, interp, recv, name, args, kwargs, node):
         h = pack.models.get("%s.%s" % (k.name, name))
         if h:
             return h(interp, recv, args, kwargs)
-    if isinstance(recv, Sym) and isinstance(recv.kind, Atom):
+    if isinstance(recv, Sym) and isinstance(recv.kind, (Atom, Rec)):
         h = pack.models.get("%s.%s" % (recv.kind.name, name))
         if h:
             return h(interp, recv, args, kwargs)
